@@ -3,6 +3,7 @@ package interpreter
 import (
 	"fmt"
 	"math"
+	"reflect"
 	"strconv"
 
 	"github.com/ah-naf/borno/ast"
@@ -854,7 +855,24 @@ func isTruthy(value interface{}) bool {
 	return true // Everything else is considered true
 }
 
+// isEqual compares two runtime values: numbers, strings, booleans and nil by
+// value, arrays and objects by identity, values of different types are unequal.
 func isEqual(a, b interface{}) bool {
+	switch av := a.(type) {
+	case []interface{}:
+		bv, ok := b.([]interface{})
+		return ok && len(av) == len(bv) && (len(av) == 0 || &av[0] == &bv[0])
+	case map[string]interface{}:
+		bv, ok := b.(map[string]interface{})
+		return ok && reflect.ValueOf(av).Pointer() == reflect.ValueOf(bv).Pointer()
+	case []rune:
+		bv, ok := b.([]rune)
+		return ok && string(av) == string(bv)
+	}
+	switch b.(type) {
+	case []interface{}, map[string]interface{}, []rune:
+		return false
+	}
 	return a == b
 }
 
